@@ -129,7 +129,7 @@ def hist_common_extras(agg):
         shadow_reads_during_structural_ops=agg.n("shadow_reads"),
         iterator_calls=agg.n("iter_calls"), scans=agg.n("scans"),
         templates=dict(T1_straddle=agg.n("template_T1"), T2_tombstone=agg.n("template_T2"),
-                       T3_overlap=agg.n("template_T3"), T4_level0_chain=agg.n("template_T4")),
+                       T3_overlap=agg.n("template_T3"), T4_level0_chain=agg.n("template_T4"), T5_grown_straddle=agg.n("template_T5")),
         straddle_layouts_seen=agg.n("c14_straddle_layouts"),
         flushes_forced_in_the_middle_of_a_compaction=agg.n("midc_flush_during_compaction"),
         distinct_layout_signatures=agg.d("layout"),
